@@ -71,6 +71,13 @@ void vs_tzset(void) {
 /* localtime_r() and strftime() run under the same libc lock (strftime() calls tzset() itself, which with TZ unset stats /etc/localtime - a system
  * call inside the window - on every call; localtime_r() loads the zone data on the first conversion of the process).  Same model: the lock is a
  * mutex of this file, with one scheduling point inside the window.  These are the RIGHT functions to call - no counter, only the window. */
+/* flockfile()/funlockfile() on the caller's streams: a real libc lock the cooperative scheduler cannot see (a thread parked at a scheduling point while it
+ * holds one would block the next thread for real, and nothing would ever run again).  In the scheduler builds the stream locks are mutexes of the
+ * scheduler's model, one per standard stream; the serialising scheduler itself keeps the threads out of each other's way. */
+static pthread_mutex_t model_of_stream_lock[3];
+void vs_flockfile(FILE *f) { if (vs_mutex_lock && vs_mutex_unlock) vs_mutex_lock(&model_of_stream_lock[f == stdout ? 1 : f == stderr ? 2 : 0]); else flockfile(f); }
+void vs_funlockfile(FILE *f) { if (vs_mutex_lock && vs_mutex_unlock) vs_mutex_unlock(&model_of_stream_lock[f == stdout ? 1 : f == stderr ? 2 : 0]); else funlockfile(f); }
+
 /* getlogin_r(): where /proc/self/loginuid is absent (kernels without audit support) glibc searches utmp with its own reader, under libc's utmp lock and with
  * file locking system calls inside - a lock fork() does not reset either.  The scheduler builds answer as that environment does. */
 static pthread_mutex_t model_of_libc_utmp_lock = PTHREAD_MUTEX_INITIALIZER;
